@@ -159,10 +159,18 @@ class E1(Base):
             if N > 300:
                 p["s"] = 1
         elif cfg["cls"] == "Mixed":
-            cfg["N"] = N = min(N, 260)
-            p["s"] = rng.choice((1, 2, 3))
+            if rng.random() < 0.3:
+                # many units (beyond 255), just below the diagonal
+                cfg["N"] = N = rng.randint(258, 400)
+                p["s"] = N - rng.randint(1, 6)
+            else:
+                cfg["N"] = N = min(N, 260)
+                p["s"] = rng.choice((1, 2, 3))
         elif cfg["cls"] == "Multistage":
             tot = rng.randint(1, 12)
+            if rng.random() < 0.3:
+                cfg["N"] = N = rng.randint(258, 420)
+                tot = N - rng.randint(1, 6)
             p["r"] = rng.randint(0, tot)
             p["d"] = tot - p["r"]
         elif cfg["cls"] == "TwoLevel":
